@@ -195,8 +195,9 @@ def run(ctx):
     from odf.opendocument import OpenDocumentText, load
     strings = [''.join(t) for n in range(0, 4) for t in itertools.product(ALPHA, repeat=n)]
     strings += [rand_string(ctx.rng, 40) for _ in range(60 if ctx.quick else 600)]
-    from odf.element import _handle_unrepresentable
-    strings = [s for s in strings if _handle_unrepresentable(s) == s and s]
+    import xmllib as X_
+    from . import xmlcommon as XC_
+    strings = [s for s in strings if s and all(X_.xml10_char(ord(c)) and not XC_.discouraged(ord(c)) for c in s)] + ['a\u0085b', 'x \u0085\u00a0 y', '\u2028z']
     for chunk in range(0, len(strings), 40):
         part = strings[chunk:chunk + 40]
         doc = OpenDocumentText()
